@@ -138,12 +138,23 @@ func clean(s string) string {
 	return strings.ReplaceAll(s, "\r", "\\r")
 }
 
+// Pre, when set by a harness, emits deterministic cases (exhaustive enumerations of small
+// spaces, boundary tables) before the random ones.  It runs only in the shard that also runs the
+// corpus (flag -pre), with thorough=true in the thorough tier.
+var Pre func(emit func(op string), thorough bool)
+
+// Thorough reports the tier the harness was started in (flag -tier thorough).
+var Thorough bool
+
 // Main is the common entry point.
 func Main(gen func(r *Rand) string, exec func(op string) string) {
 	seed := flag.Uint64("seed", 1, "PRNG seed")
 	n := flag.Int("n", 1000, "number of generated cases")
 	corpus := flag.String("corpus", "", "comma separated files of op lines to run first")
+	pre := flag.Bool("pre", false, "run the deterministic Pre cases first")
+	tier := flag.String("tier", "quick", "quick|thorough")
 	flag.Parse()
+	Thorough = *tier == "thorough"
 	w := bufio.NewWriterSize(os.Stdout, 1<<16)
 	defer w.Flush()
 	emit := func(op string) {
@@ -170,6 +181,9 @@ func Main(gen func(r *Rand) string, exec func(op string) string) {
 			}
 			fh.Close()
 		}
+	}
+	if *pre && Pre != nil {
+		Pre(emit, Thorough)
 	}
 	r := NewRand(*seed)
 	for i := 0; i < *n; i++ {
